@@ -511,3 +511,87 @@ func VH20f_run() {
 	verif.Assert(s.closed, lab+"/socket-left-open")
 	verif.Reach("ran")
 }
+
+// zzApply stands for what the option parser does with one option of macat's own table (optopia's documented
+// contract: convert the argument into ArgP by its type, then call Handle with the raw text).
+func zzApply(a *App, long string, val string) error {
+	for _, o := range a.getOptions() {
+		if o.Long != long {
+			continue
+		}
+		if o.HasArg && o.ArgP != nil {
+			switch v := o.ArgP.(type) {
+			case *int:
+				n := 0
+				for _, ch := range []byte(val) {
+					if ch < '0' || ch > '9' {
+						return mangos.ErrBadValue
+					}
+					n = n*10 + int(ch-'0')
+				}
+				*v = n
+			case *Duration:
+				if e := v.UnmarshalText([]byte(val)); e != nil {
+					return e
+				}
+			case *string:
+				*v = val
+			}
+		}
+		if o.Handle != nil {
+			return o.Handle(val)
+		}
+		return nil
+	}
+	return mangos.ErrBadOption
+}
+
+// VH20h_option_order: macat's own option handlers, applied in every order. The
+// repeat count asked for on the command line is the one that is used: an
+// explicit --count N (N = 1..3) survives a --send-interval given before or
+// after it; an interval without a count means "for ever" (-1); no interval
+// means the count is what was given (default 1). Format and data options given
+// twice are refused whatever comes between them.
+func VH20h_option_order() {
+	lab := "C20/option-order"
+	// App as Initialize() leaves it, minus os.Stdout and the parser's own table (outside the claim)
+	a := &App{recvTimeout: Duration(-1), sendTimeout: Duration(-1), sendInterval: Duration(-1), sendDelay: Duration(-1), count: 1,
+		options: &optopia.Options{}, stdOut: &capWriter{}}
+	n := 1 + verif.Choice("count", 3)
+	cnt := string(rune('0' + n))
+	withCount := verif.Choice("with-count", 2) == 1
+	withInterval := verif.Choice("with-interval", 2) == 1
+	ival := []string{"0", "1", "2s"}[verif.Choice("interval", 3)]
+	order := verif.Choice("order", 2)
+	steps := [][2]string{}
+	if withCount {
+		steps = append(steps, [2]string{"count", cnt})
+	}
+	if withInterval {
+		steps = append(steps, [2]string{"send-interval", ival})
+	}
+	steps = append(steps, [2]string{"data", "x"})
+	if order == 1 {
+		for i, j := 0, len(steps)-1; i < j; i, j = i+1, j-1 {
+			steps[i], steps[j] = steps[j], steps[i]
+		}
+	}
+	for _, s := range steps {
+		verif.Assert(zzApply(a, s[0], s[1]) == nil, lab+"/option-refused")
+	}
+	switch {
+	case withCount:
+		verif.Assert(a.count == n, lab+"/explicit-count-not-kept")
+	case withInterval:
+		verif.Assert(a.count == -1, lab+"/interval-without-count-does-not-mean-for-ever")
+	default:
+		verif.Assert(a.count == 1, lab+"/default-count")
+	}
+	if withInterval {
+		verif.Assert(a.sendInterval >= 0, lab+"/interval-not-recorded")
+	} else {
+		verif.Assert(a.sendInterval < 0, lab+"/interval-set-without-the-option")
+	}
+	verif.Assert(zzApply(a, "data", "y") != nil, lab+"/second-data-accepted")
+	verif.Reach("option-order")
+}
